@@ -79,6 +79,9 @@ func throwRange() { panic(&Throw{Class: "RangeError"}) }
 // ThrowValue throws an arbitrary value (used by scripted callbacks).
 func ThrowValue(v Value) { panic(&Throw{Class: "Thrown", Val: v}) }
 
+// ThrowError throws a native error of the given class ("RangeError", ...).
+func ThrowError(class string) { panic(&Throw{Class: class}) }
+
 // Try runs f and returns the throw completion it ended with, or nil.
 func Try(f func()) (t *Throw) {
 	defer func() {
